@@ -6,6 +6,10 @@ import signal
 import refcodec
 from lib import hx
 
+EXTRA_PROPS = ['C03Nominal']
+
+EXTRACT = ['gen.c03nominal']
+
 RULE = ("decode: every byte string of length<=2 (quick; <=3 with boundary third byte), every "
         "continuation-bit shape up to 13 bytes with boundary payloads, random longer, every "
         "truncation of sampled encodings; encode: every n below 2^16 (quick) / 2^21 (thorough), "
@@ -164,6 +168,37 @@ def run(ctx):
     from minecraft.networking.types import basic
     ctx.extra['rule'] = RULE
     types = [('varint', basic.VarInt, 5, 2 ** 32), ('varlong', basic.VarLong, 10, 2 ** 64)]
+    # the CLASS readers of Model/C03Nominal.lean (max_bytes pinned per class, decoder and read counter are
+    # projections of one instrumented function): value / error, tell() and number of read() calls
+    import io as _io
+    for cname, T in (('VarInt', basic.VarInt), ('VarLong', basic.VarLong)):
+        mo = ctx.driver.ask(['c03nominal.maxbytes ' + cname])[0]
+        if mo != 'ok %s' % getattr(T, 'max_bytes', None):
+            ctx.disagree('max_bytes of the class', cname, mo, getattr(T, 'max_bytes', None))
+        ins = [bytes([0xff] * k + [t]) for k in range(0, 13) for t in (0x00, 0x01, 0x7f, 0x80)] + \
+              [bytes(ctx.rng.randrange(256) for _ in range(ctx.rng.randrange(0, 14))) for _ in range(ctx.scale(300, 3000))]
+        outs = ctx.driver.ask(['c03nominal.read %s %s' % (cname, hx(b)) for b in ins])
+        for b, mo in zip(ins, outs):
+            class Counting(_io.BytesIO):
+                n = 0
+
+                def read(self, k=-1):
+                    Counting.n += 1
+                    return _io.BytesIO.read(self, k)
+            Counting.n = 0
+            f = Counting(b)
+            try:
+                got = 'ok %d' % T.read(f)
+            except EOFError:
+                got = 'err:eof 0'
+            except ValueError:
+                got = 'err:tooLong 0'
+            except Exception as e:
+                got = 'err:other 0 (%r)' % (e,)
+            got += ' tell=%d reads=%d' % (f.tell(), Counting.n)
+            ctx.case(('class-read', cname, b))
+            if mo != got:
+                ctx.disagree('%s.read (class reader, reads counted)' % cname, hx(b), mo, got)
     # -------- decode
     for name, T, mx, _ in types:
         if getattr(T, 'max_bytes', None) != mx:
